@@ -540,7 +540,9 @@ func Run(r *evid.Run) {
 	if r.Thorough() {
 		depth = 5
 	}
-	r.SetDeadline(map[bool]time.Duration{false: 240 * time.Second, true: 40 * time.Minute}[r.Thorough()])
+	if os.Getenv("VERIF_DEADLINE_SEC") == "" { // an explicit deadline wins
+		r.SetDeadline(map[bool]time.Duration{false: 240 * time.Second, true: 40 * time.Minute}[r.Thorough()])
+	}
 	r.Rule(fmt.Sprintf("every schedule of length 0..%d over %v (recover only right after a poll that answered use-snapshot, at most one follower restart) x replication message limit {1 byte, 300 bytes, default} x leader log cache {0, 2 entries}; each schedule runs on a fresh table of a long-lived real leader/follower engine pair with the real LogServer/SnapshotServer over gRPC and the real replication worker stepped by the harness. Observation after every event AND at every follower apply (AppliedIndexListener; the apply path is parked while the harness reads): the follower's recorded leader index never decreases and its full content equals the leader content recorded at that index; afterwards <= n+4 polls (with recovery when told) bring it to the leader's state. Table sets: every sequence of length <= 4 over {create/delete x, create/delete y on the leader, follower reconcile}. Non-trivial: every schedule; distinct = distinct (schedule, poll results, final content)", depth, evName))
 	total := par.SeqCount(nEv, depth)
 	type job struct {
